@@ -277,6 +277,40 @@ def scenario(ctx, rng, j):
     s3 = bytearray(S)
     s3[rng.randrange(len(s3))] ^= 1 << rng.randrange(8)
     judge('scripthash:script-bit', [isa.push(bytes(s3)), lh], fields, False)
+    # --- scripts are OBJECTS with a history: one that was already committed
+    # to is extended (a + b) and the sum is committed to (or the other way
+    # round); every lock commits to exactly the script it was built for
+    if j % 3 == 1:
+        hsz = rng.choice((26, 20, 32))
+        part = t.Script('true', O('TRUE'))
+        rest = t.Script('', O('POP0') + S)
+        first_part = rng.random() < 0.5
+        if first_part:
+            t.make_scripthash_lock(part, hsz)
+            t.make_taproot_lock(pA, part)
+        whole = part + rest
+        lw = t.make_scripthash_lock(whole, hsz)
+        ltw = t.make_taproot_lock(pA, whole)
+        lp = t.make_scripthash_lock(part, hsz)
+        ltp = t.make_taproot_lock(pA, part)
+        tagh = 'part-first' if first_part else 'sum-first'
+        judge(f'scripthash:sum:{tagh}:ok',
+              [t.make_scripthash_witness(whole), lw], fields, vS)
+        judge(f'scripthash:sum:{tagh}:part-only',
+              [isa.push(O('TRUE')), lw], fields, False)
+        judge(f'scripthash:part:{tagh}:ok',
+              [t.make_scripthash_witness(part), lp], fields, True)
+        judge(f'scripthash:part:{tagh}:sum',
+              [isa.push(O('TRUE') + O('POP0') + S), lp], fields, False)
+        judge(f'taproot:sum:{tagh}:ok',
+              [t.make_taproot_witness_scriptspend(pA, whole), ltw], fields,
+              vS)
+        judge(f'taproot:sum:{tagh}:part-only',
+              [t.make_taproot_witness_scriptspend(pA, part), ltw], fields,
+              False)
+        judge(f'taproot:part:{tagh}:ok',
+              [t.make_taproot_witness_scriptspend(pA, part), ltp], fields,
+              True)
     # --- graftroot surrogate
     ws = t.make_graftroot_witness_surrogate(A, sS)
     judge('graftroot-surrogate:ok', [ws, lg], fields, vS)
